@@ -447,6 +447,11 @@ def systematic_content(R):
             hs.append([rq, e, e])                                             # then the same error again
             hs.append([rq, e, ["dlv", 1, "result", "plain"], e])              # then a result for the same id
             hs.append([rq, e, ["dlv", 1, "error", "plain"], ["dlv", 1, "result", "plain"]])   # then a plain error
+        # a reply that carries no `from`: still the reply to that request
+        rn, en = ["dlv", 1, "result", "plain", "res-no-from"], ["dlv", 1, "error", "plain", "err-no-from"]
+        if not R.unparsable(rq[0], rq[1], "result", "res-no-from"):
+            hs.append([rq, rn, rn, en])
+        hs.append([rq, rq, ["dlv", 2, "error", "plain", "err-no-from"], rn if not R.unparsable(rq[0], rq[1], "result", "res-no-from") else en, ["dlv", 2, "result", "plain"]])
         for c in R.RESULT_CONTENTS:
             r = ["dlv", 1, "result", "plain", c]
             hs.append([rq, r, r, ["dlv", 1, "error", "plain", "err-backoff-3600"]])
